@@ -31,6 +31,10 @@ pub fn run(tier: Tier) -> i32 {
                 Err(_) => acc.count("prerequisite_failed_writer_error_(C01)", 1),
             }
         }
+        // two iterators over sources sharing one file position, advanced alternately
+        if blocks >= 3 && (big || i % 16 == 0) {
+            crate::qcheck::shared_position_pass("C04", &spec, &bytes, &model, &qs, acc);
+        }
         acc.count("entries_yielded", yielded);
         if blocks > spec.cfg.index_levels as usize + 2 {
             acc.nontrivial += acc.evaluations - before;
